@@ -241,3 +241,61 @@ Print Assumptions C01_ruler_cfg_term_names_ok.
 Example C01_registry_alts_ok2 :
   alts_ok2 (map (fun na => mkRule (fst na) true (fst na) (snd na)) block_registry) = true.
 Proof. vm_compute. reflexivity. Qed.
+
+(* ---- the inline parser and the whole pipeline never raise ------------------------------------- *)
+From MD Require Import Base.Regex Model.Inline Model.Pipeline Lemmas.InlineSafe Lemmas.ParseSafe.
+
+(* For EVERY source, env and token list and every configuration with the (absent) linkifier off
+   whose post-processing chain is in registration order (nothing that reads delimiters runs
+   after fragments_join): ParserInline.parse never raises.  No IndexError from an unguarded
+   src[pos] read in any of the 12 inline rules, in skipToken or in the tokenizer loop; none from
+   push() popping the delimiter stack on a closing token; none from delimiters / jumps / tokens
+   index reads in balance_pairs and in the strikethrough and emphasis post-processing; through
+   the nested tokenize of link text and the nested parse of image descriptions at any depth.
+   Invariants: 0 <= pos, posMax <= len src; every delimiter points at an existing token; the
+   skipToken memo holds positions; the regex engine only moves forward; the jump table of
+   balance_pairs has 0 <= jumps[i] <= i; matched delimiters point at valid partners. *)
+Theorem C01_inline_parse_never_raises :
+  forall cfg rf cf lt, ic_linkify cfg = false -> order_ok (ic_rules2 cfg) = true ->
+  forall src env tokens e, inline_parse cfg rf cf lt src env tokens <> Raise e.
+Proof. exact inline_parse_no_raise. Qed.
+Print Assumptions C01_inline_parse_never_raises.
+
+(* the order hypothesis holds for every chain a Ruler compiles from a rule list in that order,
+   whatever is enabled; and the generated rule table is in that order *)
+Theorem C01_ruler_chain_order_ok :
+  forall rs : list (@rule str), order_ok (map rfn rs) = true -> order_ok (compile_chain rs []) = true.
+Proof. exact ruler_chain_order_ok. Qed.
+Print Assumptions C01_ruler_chain_order_ok.
+Example C01_registry_order_ok : order_ok (map fst inline2_registry) = true.
+Proof. vm_compute. reflexivity. Qed.
+
+(* balance_pairs alone: for any delimiter list whose entries point into N tokens, processDelimiters
+   does not raise, keeps the length, and leaves every end index -1 or inside the list *)
+Theorem C01_process_delimiters_safe :
+  forall N ds, Forall (DQ N (len ds)) ds ->
+  safe (process_delimiters ds) (fun ds' => len ds' = len ds /\ Forall (DQ N (len ds)) ds').
+Proof. exact process_delimiters_safe. Qed.
+Print Assumptions C01_process_delimiters_safe.
+
+(* the regular-expression engine only moves forward *)
+Theorem C01_regex_match_moves_forward : forall r st e, match_at r st = Some e -> m_pos st <= m_pos e.
+Proof. exact match_at_ge. Qed.
+Print Assumptions C01_regex_match_moves_forward.
+
+(* MarkdownIt.parse / parseInline: block parser, inline parser and the core chain composed *)
+Theorem C01_parse_never_raises :
+  forall cfg rf cf lt,
+    term_names_ok (p_block cfg) -> mem_str nm_paragraph (c_rules (p_block cfg)) = true ->
+    ic_linkify (p_inline cfg) = false -> p_linkify cfg = false -> order_ok (ic_rules2 (p_inline cfg)) = true ->
+  forall src env e, parse cfg rf cf lt src env <> Raise e.
+Proof. exact parse_no_raise. Qed.
+Print Assumptions C01_parse_never_raises.
+
+Theorem C01_parse_inline_never_raises :
+  forall cfg rf cf lt,
+    term_names_ok (p_block cfg) -> mem_str nm_paragraph (c_rules (p_block cfg)) = true ->
+    ic_linkify (p_inline cfg) = false -> p_linkify cfg = false -> order_ok (ic_rules2 (p_inline cfg)) = true ->
+  forall src env e, parse_inline cfg rf cf lt src env <> Raise e.
+Proof. exact parse_inline_no_raise. Qed.
+Print Assumptions C01_parse_inline_never_raises.
